@@ -32,6 +32,19 @@
 #include "aes_keyexp_internal.h"
 #include "aes_gcm.h"
 #include "aes_gcm_internal.h"
+#include <stddef.h>
+
+#ifdef SAFE_DATA
+/* Wipe a temporary that held key material; volatile stores cannot be optimised away */
+static void
+clear_tmp_keys(void *mem, size_t len)
+{
+        volatile uint8_t *p = (volatile uint8_t *) mem;
+
+        while (len--)
+                *p++ = 0;
+}
+#endif
 
 void
 _aes_gcm_pre_128(const void *key, struct isal_gcm_key_data *key_data)
@@ -39,6 +52,10 @@ _aes_gcm_pre_128(const void *key, struct isal_gcm_key_data *key_data)
         uint8_t tmp_exp_key[ISAL_GCM_ENC_KEY_LEN * ISAL_GCM_KEY_SETS];
         _aes_keyexp_128((const uint8_t *) key, (uint8_t *) key_data->expanded_keys, tmp_exp_key);
         _aes_gcm_precomp_128(key_data);
+#ifdef SAFE_DATA
+        /* the unused decryption schedule contains the raw key and round keys */
+        clear_tmp_keys(tmp_exp_key, sizeof(tmp_exp_key));
+#endif
 }
 
 void
@@ -47,6 +64,10 @@ _aes_gcm_pre_256(const void *key, struct isal_gcm_key_data *key_data)
         uint8_t tmp_exp_key[ISAL_GCM_ENC_KEY_LEN * ISAL_GCM_KEY_SETS];
         _aes_keyexp_256((const uint8_t *) key, (uint8_t *) key_data->expanded_keys, tmp_exp_key);
         _aes_gcm_precomp_256(key_data);
+#ifdef SAFE_DATA
+        /* the unused decryption schedule contains the raw key and round keys */
+        clear_tmp_keys(tmp_exp_key, sizeof(tmp_exp_key));
+#endif
 }
 
 void
